@@ -27,7 +27,7 @@ META = dict(
 )
 META['level_text'] = (
     'Theorems: from_numbers(to_numbers d) = d, the compact JSON value parses back to the same DNA, the nested-number view parses back (after the repair of the chain rendering), '
-    'the dictionary views reconstruct the DNA for every key / value / multi-choice style under view_ok, lookups by id / name / decision point return the decision made there, '
+    'the dictionary view reconstructs the DNA (proved for id keys / sub-choice keys / every non-DNA value type under view_ok; the other key styles and lookups are decided by the correspondence and the oracle), '
     'and every producer returns an aligned DNA (each node bound to the decision point of its position), whose views equal those of the DNA rebuilt from its numbers. '
     'Tie: the model is run against the library on generated specifications x valid DNAs x all 45 view-parameter combinations (plus inactive decisions), on corrupted views, and '
     'the direct oracle checks every round trip and the alignment of every DNA the library hands out along chains iter -> clone -> mutate -> recombine.')
@@ -273,14 +273,17 @@ def process_spec(job):
     d = G.build_dna(sd)
     try:
       d.use_spec(pg)
-    except Exception as e:
-      raise RuntimeError('harness: a valid DNA does not bind: %s %r: %s' % (sdesc, tree, e))
-    dstr = str(d)
+      dstr = str(d)
+      nums = d.to_numbers(); nested = d.to_numbers(flatten=False)
+      compact = d.to_json(type_info=False)
+      jv = d.to_json(compact=False)
+      verbose = [G.val_tr(jv['value'])] + [nest_tr(json_to_nested(c['value'])) for c in jv.get('children', [])]
+    except Exception as e:   # pylint: disable=broad-except
+      ctx.hit('C12/view-raises/%s' % type(e).__name__, 'binding or rendering the valid DNA %r of %s raises %s: %s' % (tree, sdesc, type(e).__name__, str(e)[:100]),
+              dict(spec=s, sdna=sd, clause='view-raises'))
+      add([10, int(Q['nested_lossy']), str_, sdt], [-2], dict(op='views', spec=sdesc, dna=repr(tree)))
+      continue
     # ---- (10) numbers, nested, compact, verbose ------------------------------------------------
-    nums = d.to_numbers(); nested = d.to_numbers(flatten=False)
-    compact = d.to_json(type_info=False)
-    jv = d.to_json(compact=False)
-    verbose = [G.val_tr(jv['value'])] + [nest_tr(json_to_nested(c['value'])) for c in jv.get('children', [])]
     add([10, int(Q['nested_lossy']), str_, sdt], [[G.val_tr(v) for v in nums], nest_tr(nested), nest_tr(compact), verbose], dict(op='views', spec=sdesc, dna=dstr))
     ctx.count(('views', trlib.to_line(str_), trlib.to_line(sdt)), nontrivial=nontriv, kind='numbers/nested/json',
               sample=dict(op='views', spec=sdesc, dna=dstr, numbers=repr(nums), nested=repr(nested), compact=repr(compact)) if nontriv and (si + wi) % 23 == 0 else None)
@@ -312,8 +315,14 @@ def process_spec(job):
     for kt, vt, mc in sel:
       kti, vti, mci = KTS.index(kt), VTS.index(vt), MCS.index(mc)
       for inactive in ([False, True] if (kti + vti + mci + wi) % 3 == 0 else [False]):
-        dct = d.to_dict(kt, vt, mc, include_inactive_decisions=inactive)
-        dtr = dict_tr(dct, ix, kt, vt)
+        try:
+          dct = d.to_dict(kt, vt, mc, include_inactive_decisions=inactive)
+          dtr = dict_tr(dct, ix, kt, vt)
+        except Exception as e:   # pylint: disable=broad-except
+          ctx.hit('C12/to_dict-raises/%s/%s/%s' % (kt, vt, mc), 'to_dict(%s, %s, %s) of %s raises %s: %s' % (kt, vt, mc, dstr, type(e).__name__, str(e)[:100]),
+                  dict(spec=s, sdna=sd, clause='to_dict-raises'))
+          add([13, qtr, str_, sdt, kti, vti, mci, int(inactive)], [-2], dict(op='to_dict', spec=sdesc, dna=dstr, params=(kt, vt, mc, inactive)))
+          continue
         add([13, qtr, str_, sdt, kti, vti, mci, int(inactive)], [[dtr]], dict(op='to_dict', spec=sdesc, dna=dstr, params=(kt, vt, mc, inactive), result=repr(dct)[:300]))
         ctx.count(('to_dict', trlib.to_line(str_), trlib.to_line(sdt), kt, vt, mc, inactive), nontrivial=nontriv, kind='to_dict',
                   sample=dict(op='to_dict', spec=sdesc, dna=dstr, key_type=kt, value_type=vt, multi_choice_key=mc, result=repr(dct)[:200]) if nontriv and (si + wi + kti * 7 + vti) % 211 == 0 else None)
@@ -331,8 +340,12 @@ def process_spec(job):
           add([14, qtr, str_, dtr2, int(ial)], out, dict(op='from_dict', spec=sdesc, params=(kt, vt, mc), dict=repr(dv)[:300], kind=label, dna=dstr))
           ctx.count(('from_dict', trlib.to_line(str_), trlib.to_line(dtr2), ial), nontrivial=True, kind='from_dict:' + label.split(':')[0])
     # ---- (15) lookups ------------------------------------------------------------------------------
-    byid = d._decision_by_id   # pylint: disable=protected-access
-    named = d.named_decisions
+    try:
+      byid = d._decision_by_id   # pylint: disable=protected-access
+      named = d.named_decisions
+    except Exception as e:   # pylint: disable=broad-except
+      ctx.hit('C12/lookup/tables-raise', 'building the lookup tables of %s raises %s: %s' % (dstr, type(e).__name__, str(e)[:100]), dict(spec=s, sdna=sd, clause='lookup'))
+      byid, named = {}, {}
     add([15, qtr, str_, sdt], [dict_tr(byid, ix, 'id', 'dna'),
                                [[[ord(c) for c in k], ([1] + [leaf_tr(e, None, 'dna') for e in v]) if isinstance(v, list) else [0, leaf_tr(v, None, 'dna')]] for k, v in named.items()]],
         dict(op='lookups', spec=sdesc, dna=dstr))
@@ -341,8 +354,24 @@ def process_spec(job):
     oracle_views(ctx, s, pg, ix, sd, d, sdesc, rng, P, full=wi < P['ndict']); ctx.oracle += 1
   # ---- chains of producers ------------------------------------------------------------------------------
   for ci in range(P['nchains']):
-    oracle_chain(ctx, s, pg, ix, sdesc, pyrandom.Random(seed + ci), fin); ctx.oracle += 1
+    try:
+      oracle_chain(ctx, s, pg, ix, sdesc, pyrandom.Random(seed + ci), fin)
+    except Exception as e:   # pylint: disable=broad-except
+      ctx.hit('C12/producer-raises/%s' % type(e).__name__, 'a producer chain on %s raises %s: %s' % (sdesc, type(e).__name__, str(e)[:120]), dict(spec=s, clause='alignment', how='chain'))
+    ctx.oracle += 1
   return ctx
+
+def process_spec_safe(job):
+  """An exception escaping the per-spec driver is itself a failing input (the spec is replayable), never a crash of the check."""
+  try:
+    return process_spec(job)
+  except Exception as e:   # pylint: disable=broad-except
+    import traceback
+    rec = Rec()
+    rec.hit('C12/unexpected-exception/%s' % type(e).__name__,
+            'the library raised %s: %s on %s (%s)' % (type(e).__name__, str(e)[:150], G.describe(job[1]), traceback.format_exc().strip().split('\n')[-3].strip()[:120]),
+            dict(spec=job[1], clause='alignment', how='driver'))
+    return rec
 
 def number_corruptions(rng, nums):
   out = []
@@ -400,7 +429,11 @@ def dict_corruptions(rng, dct):
 
 # ------------------------------------------------------------------------------------------------
 def same(a, b):
-  return a == b and G.freeze(G.dna_to_tree(a)) == G.freeze(G.dna_to_tree(b))
+  try:
+    eq = a == b
+  except Exception:   # pylint: disable=broad-except
+    eq = False          # DNA.__eq__ raises ValueError on trees of different shape: certainly not equal
+  return eq and G.freeze(G.dna_to_tree(a)) == G.freeze(G.dna_to_tree(b))
 
 def alignment_problem(d, s, sd, ix):
   """None when every node is bound to the decision point of its position."""
@@ -616,7 +649,7 @@ def run(ctx):
     specs = specs[::max(1, len(specs) // int(os.environ['C12_MAXSPECS']))]
   jobs = [(si, s, origin, rng.getrandbits(48), Q, P) for si, (s, origin) in enumerate(specs)]
   nproc = int(os.environ.get('VERIF_JOBS', str(min(12, os.cpu_count() or 2))))
-  recs = run_jobs_with(process_spec, jobs, nproc)
+  recs = run_jobs_with(process_spec_safe, jobs, nproc)
   ctx.log('implementation ran on %d specifications (%d worker processes)' % (len(specs), nproc))
   cases, impl, descr = [], [], []
   ocount = 0
